@@ -279,6 +279,8 @@ FORMAT_FAILURES = {
     "ArrayAlignment.write(format unknown)": ("ArrayAlignment", "x.fasta", {"format": "nosuchformat"}),
     "SequenceCollection.write(format unknown)": ("SequenceCollection", "x.fasta", {"format": "nosuchformat"}),
     "new Alignment.write(format unknown)": ("new Alignment", "x.fasta", {"format": "nosuchformat"}),
+    "new SequenceCollection.write(format unknown)": ("new SequenceCollection", "x.fasta", {"format": "nosuchformat"}),
+    "TreeCollection.write(second entry cannot be formatted)": ("TreeCollection_bad_second", "x.trees", {}),
     "Table.write(writer raises)": ("Table", "x.tsv", {"writer": _failing_writer}),
     "atomic_write(body raises)": ("atomic_write_raises", "x.txt", {}),
     "PhyloNode.write(json, unserialisable param)": ("PhyloNode_badparam", "x.json", {}),
@@ -314,6 +316,14 @@ def do_write(key, objs, path, kw):
         t = make_tree("((a:1,b:2):3,(c:4,d:5):6);")
         t.params["not_json"] = {1, 2}  # a set: newick / xml formatting accept it, json formatting raises
         t.write(path)
+        return
+    if key == "TreeCollection_bad_second":
+        from cogent3 import make_tree
+        from cogent3.phylo.tree_collection import LogLikelihoodScoredTreeCollection
+
+        # the first entry is written before formatting the second one fails
+        tc = LogLikelihoodScoredTreeCollection([(-1.0, make_tree("(a,b,c);")), (-2.0, None), (-3.0, make_tree("(a,c,b);"))])
+        tc.write(path)
         return
     if key == "TreeCollection":
         from cogent3 import make_tree
